@@ -19,7 +19,7 @@ func genC06(rt *rapid.T) World {
 	o.constructed = 3
 	o.interference = false
 	o.faults = false
-	o.weights = opWeights{OpReconcile: 10, OpKubelet: 5, OpSettle: 4, OpEditReplicas: 3, OpScaleInAt: 4, OpEditSlotRemove: 3, OpEditSlotAdd: 1, OpRefreshAll: 1, OpUserDeletePod: 1, OpEditTemplate: 1}
+	o.weights = opWeights{OpReconcile: 10, OpKubelet: 5, OpSettle: 4, OpEditReplicas: 3, OpScaleInAt: 4, OpEditSlotRemove: 3, OpEditSlotAdd: 1, OpRefreshAll: 1, OpUserDeletePod: 1, OpEditTemplate: 1, OpClaimRemove: 2}
 	w := genWorld(rt, o)
 	w.Spec.Claims = rapid.SampledFrom([]int{0, 1, 1, 2, 2, 3}).Draw(rt, "claims06")
 	w.Spec.SelExpr = rapid.IntRange(0, 4).Draw(rt, "selExpr") == 0
@@ -122,6 +122,16 @@ func monC06(rep Rep, v *View, s *Sys, claimUID map[string]string) (creates int, 
 				}
 				claim := exists[want]
 				if claim == nil {
+					// a claim somebody deleted a moment ago may still be in the controller's cache: it then has no way of
+					// knowing (and the claim it saw is the one to compare identities with)
+					for _, cc := range v.Rec.CachePVCs {
+						if cc.Namespace == set.Namespace && cc.Name == want && s.RemovedClaims[want] {
+							claim = cc
+							rep.Label("claim-deleted-by-user-still-cached")
+						}
+					}
+				}
+				if claim == nil {
 					rep.Violate("storage/claim-missing-at-pod-create", "pod %s was created before its claim %s exists%s", pod.Name, want, ctx(v))
 				}
 				if set.Spec.Selector != nil {
@@ -131,7 +141,8 @@ func monC06(rep Rep, v *View, s *Sys, claimUID map[string]string) (creates int, 
 						}
 					}
 				}
-				if old, ok := claimUID[want]; ok && old != string(claim.UID) {
+				// (a claim the user deleted at some point may legitimately come back as a new object)
+				if old, ok := claimUID[want]; ok && old != string(claim.UID) && !s.RemovedClaims[want] {
 					rep.Violate("storage/claim-replaced", "ordinal %d came back with a different claim object %s (uid %s -> %s)%s", ord, want, old, claim.UID, ctx(v))
 				}
 				claimUID[want] = string(claim.UID)
@@ -191,7 +202,7 @@ func runC06(rep Rep, w World) {
 		have[c.Name] = true
 	}
 	for name := range claimUID {
-		if !have[name] {
+		if !have[name] && !s.RemovedClaims[name] {
 			rep.Violate("claims/disappeared", "claim %s no longer exists at the end of the history\n%s", name, s.Transcript())
 		}
 	}
